@@ -36,8 +36,9 @@ class Index:
 
 
 class Table:
-    def __init__(self, name, cols, pk=("id",), indexes=()):
+    def __init__(self, name, cols, pk=("id",), indexes=(), module=None):
         self.name, self.cols, self.pk, self.indexes = name, list(cols), list(pk), list(indexes)
+        self.module = module  # "fts4" | "fts3" | "rtree": CREATE VIRTUAL TABLE .. USING module(cols)
 
     def col(self, name):
         for c in self.cols:
@@ -79,6 +80,8 @@ def col_sql(c):
 
 
 def create_table_sql(t, name=None, multiline=False):
+    if getattr(t, "module", None):
+        return "CREATE VIRTUAL TABLE %s USING %s(%s)" % (q(name or t.name), t.module, ", ".join(c.name for c in t.cols))
     parts = [col_sql(c) for c in t.cols]
     if t.pk:
         parts.append("PRIMARY KEY (%s)" % ", ".join(q(c) for c in t.pk))
@@ -94,6 +97,8 @@ def create_index_sql(idx, tname):
 def hcl(schema):
     out = ['schema "main" {', "}"]
     for t in schema.tables.values():
+        if getattr(t, "module", None):
+            continue  # not expressible; evolutions with a virtual table are hand-written throughout
         out.append('table "%s" {' % t.name)
         out.append("  schema = schema.main")
         for c in t.cols:
@@ -134,7 +139,7 @@ COL_POOL = [("name", "text"), ("email", "text"), ("age", "integer"), ("score", "
 SCRATCH_POOL = ["scratch", "tmp_import", "new_scratch", "staging", "new_staging", "backfill_tmp"]
 
 # operation kinds that only the hand writer can produce (atlas never plans them)
-HAND_ONLY = {"rebuild_neighbor", "rename_drop", "rename_first_rebuild", "temp_table", "temp_column", "replace_table", "drop_cols_alter", "drop_cols_rebuild_variant", "readd_column", "recreate_table"}
+HAND_ONLY = {"replace_inplace", "rebuild_neighbor", "rename_drop", "rename_first_rebuild", "temp_table", "temp_column", "replace_table", "drop_cols_alter", "drop_cols_rebuild_variant", "readd_column", "recreate_table"}
 
 ADDITIVE = {"add_table", "add_column", "add_index", "add_column_rebuild"}
 TEMPORARY = {"temp_table", "temp_column"}
@@ -207,6 +212,9 @@ def apply_op(schema, op):
         t.indexes = [i for i in t.indexes if not (set(i.cols) & set(op["cols"]))]
         if op.get("intr"):
             apply_op(schema, op["intr"])
+    elif k == "replace_inplace":
+        if op.get("col") is not None:
+            schema.tables[op["t"]].cols.append(copy.deepcopy(op["col"]))
     elif k == "rebuild_neighbor":
         apply_op(schema, {"op": "drop_cols_rebuild", "t": op["t"], "cols": op["cols"]})
         apply_op(schema, op["nb"])
@@ -237,7 +245,7 @@ def apply_op(schema, op):
         raise ValueError(k)
 
 
-REBUILDS = {"drop_cols", "drop_cols_rebuild", "drop_cols_rebuild_variant", "add_column_rebuild", "rebuild_neighbor"}
+REBUILDS = {"replace_inplace", "drop_cols", "drop_cols_rebuild", "drop_cols_rebuild_variant", "add_column_rebuild", "rebuild_neighbor"}
 
 
 def rebuild_tmp(op):
@@ -298,6 +306,11 @@ def hand_sql(schema, op, rng):
                 return st[:2] + ["UPDATE %s SET %s = %s" % (q("new_" + op["t"]), q("id"), q("id"))] + st[2:]
             raise ValueError(v)
         return rebuild_sql(bt, at, "new_" + op["t"])
+    if k == "replace_inplace":
+        # drop-and-replace with the temp-name convention, no row is copied: CREATE new_t (same or more columns), DROP t, RENAME
+        after = schema.clone()
+        apply_op(after, op)
+        return rebuild_sql(schema.tables[op["t"]], after.tables[op["t"]], "new_" + op["t"], insert=False)
     if k == "rebuild_neighbor":
         # a canonical rebuild of t and one destructive statement (group) on another object at a chosen slot:
         # before the CREATE, right after the RENAME, or one statement after the RENAME
@@ -361,8 +374,8 @@ def hand_sql(schema, op, rng):
                 out.append("ALTER TABLE %s DROP COLUMN %s" % (q(cur), q(t.cols[-1].name)))
             elif f == "addcol":
                 out.append("ALTER TABLE %s ADD COLUMN %s integer NULL" % (q(cur), q("extra_c")))
-            elif f == "copy" and schema.tables:
-                src = sorted(schema.tables)[0]
+            elif f == "copy" and [n for n in schema.tables if not getattr(schema.tables[n], "module", None)]:
+                src = sorted(n for n in schema.tables if not getattr(schema.tables[n], "module", None))[0]
                 out.append("INSERT INTO %s (%s) SELECT %s FROM %s" % (q(cur), q("id"), q("id"), q(src)))
             elif f == "update":
                 out.append("UPDATE %s SET %s = %s WHERE %s > 5" % (q(cur), q(t.cols[1].name), q(t.cols[1].name), q("id")))
@@ -401,12 +414,22 @@ COMMENTS = {"add_table": "create table", "add_column": "add column", "add_index"
             "drop_cols_alter": "drop columns", "drop_cols": "rebuild without the columns", "drop_cols_rebuild": "rebuild without the columns",
             "drop_cols_rebuild_variant": "rebuild without the columns", "add_column_rebuild": "rebuild with the new column",
             "temp_table": "scratch table", "temp_column": "scratch column", "replace_table": "replace table",
+            "replace_inplace": "replace the table by an empty one of the new layout",
             "rebuild_neighbor": "rebuild without the columns, and clean up", "rename_drop": "move the table aside and drop it",
             "rename_first_rebuild": "rebuild without the columns (rename first)",
             "readd_column": "change the column type: drop it and add it again", "recreate_table": "recreate the table from scratch"}
 
 
-def render_hand_file(schema, ops, rng, header=True):
+def with_eol(text, eol, rng):
+    """Windows (or mixed) line endings."""
+    if eol == "crlf":
+        return text.replace("\n", "\r\n")
+    if eol == "mixed":
+        return "".join(ln + ("\r\n" if rng.random() < 0.6 else "\n") for ln in text.split("\n"))[:-1].rstrip("\r") if text else text
+    return text
+
+
+def render_hand_file(schema, ops, rng, header=True, eol=None):
     """Render one hand-written migration file. Returns the text."""
     style = rng.choice(["plain", "comments", "pragmas", "spaced"])
     chunks = []
@@ -422,7 +445,7 @@ def render_hand_file(schema, ops, rng, header=True):
         ss = hand_sql(cur, op, rng)
         stmts.append((op, ss))
         apply_op(cur, op)
-    needs_pragma = style == "pragmas" and any(op["op"] in ("drop_cols", "drop_cols_rebuild", "drop_cols_rebuild_variant", "add_column_rebuild", "drop_table", "replace_table", "recreate_table", "rebuild_neighbor", "rename_drop", "rename_first_rebuild") for op, _ in stmts)
+    needs_pragma = style == "pragmas" and any(op["op"] in ("drop_cols", "drop_cols_rebuild", "drop_cols_rebuild_variant", "add_column_rebuild", "drop_table", "replace_table", "recreate_table", "rebuild_neighbor", "rename_drop", "rename_first_rebuild", "replace_inplace") for op, _ in stmts)
     if needs_pragma:
         chunks.append("PRAGMA foreign_keys = off;\n")
     for op, ss in stmts:
@@ -444,7 +467,7 @@ def render_hand_file(schema, ops, rng, header=True):
         text = text.rstrip("\n")
         if rng.random() < 0.5 and text.endswith(";"):
             text = text[:-1]  # last statement without a terminator
-    return text
+    return with_eol(text, eol, rng)
 
 
 # --------------------------------------------------------------------------------------------
@@ -548,6 +571,13 @@ def make_op(rng, schema, kind, writer, protect=(), target=None):
                 continue
             return op
         return None
+    if kind == "replace_inplace":
+        cands = [n for n in names if "new_" + n not in schema.tables and not getattr(schema.tables[n], "module", None)]
+        if not cands:
+            return None
+        t = schema.tables[rng.choice(cands)]
+        col = rand_col(rng, {c.name for c in t.cols}) if rng.random() < 0.6 else None
+        return {"op": "replace_inplace", "t": t.name, "col": col}
     if kind.startswith("rebuild_neighbor_"):
         slot = kind[len("rebuild_neighbor_"):]
         rng.shuffle(names)
@@ -772,7 +802,7 @@ HAND_KINDS = ["add_table", "add_column", "add_index", "add_column_rebuild", "dro
               "drop_col_variant", "drop_virtual", "temp_table", "temp_table", "temp_column", "replace_table", "mixed", "mixed_additive_temp", "mixed_big",
               "readd_alter", "readd_rebuild", "recreate_table", "drop_vmix_before", "drop_vmix_after", "rebuild_intruder",
               "rebuild_neighbor_before", "rebuild_neighbor_after0", "rebuild_neighbor_after1", "rename_drop", "rename_chain", "rename_first_rebuild",
-              "nolint_some", "nolint_all", "nolint_wrong", "nolint_file"]
+              "nolint_some", "nolint_all", "nolint_wrong", "nolint_file", "replace_inplace"]
 
 # step kinds forced into an evolution (one per evolution, cycling over the evolution number), so that every
 # run -- whatever the seed -- contains each of these shapes several times
@@ -781,6 +811,7 @@ FOCUS = [("readd_alter", "hand"), ("readd_rebuild", "hand"), ("recreate_table", 
          ("rebuild_neighbor_before", "hand"), ("rebuild_neighbor_after0", "hand"), ("rebuild_neighbor_after1", "hand"),
          ("rebuild_then_drop", "atlas"), ("rename_drop", "hand"), ("rename_chain", "hand"), ("rename_first_rebuild", "hand"),
          ("nolint_some", "hand"), ("nolint_some", "atlas"), ("nolint_all", "hand"), ("nolint_wrong", "hand"), ("nolint_file", "hand"),
+         ("replace_inplace", "hand"), ("crlf", "hand"), ("crlf", "atlas"), ("drop_virtual_table", "hand"),
          None]
 
 
@@ -799,8 +830,10 @@ def gen_evolution(rng, nsteps=6, focus=None):
     steps = []
     protect, target = set(), None
     fpos = rng.randint(1, nsteps) if focus else None
+    # an evolution with a virtual table is hand-written throughout (HCL cannot express it, `migrate diff` would drop it)
+    all_hand = bool(focus) and focus[0] == "drop_virtual_table"
     # ---- S0 ----
-    writer = rng.choice(["atlas", "hand"])
+    writer = "hand" if all_hand else rng.choice(["atlas", "hand"])
     big = rng.random() < 0.45
     ops = []
     ntab = rng.randint(5, 7) if big else rng.randint(2, 3)
@@ -834,6 +867,14 @@ def gen_evolution(rng, nsteps=6, focus=None):
         pair = rng.sample(free, want)
         target = tuple(pair) if want == 2 else None
         protect = set(pair) | {"new_" + n for n in pair}
+    if all_hand:
+        nm, module, cols = rng.choice([("docs", "fts4", ["title", "body"]), ("search_idx", "fts3", ["body"]), ("geo_idx", "rtree", ["id", "minx", "maxx"]),
+                                       ("new_docs", "fts4", ["title", "body"])])
+        op = {"op": "add_table", "table": Table(nm, [Col(c, "", True) for c in cols], pk=(), module=module)}
+        apply_op(cur, op)
+        ops.insert(rng.randint(0, len(ops)), op)
+        target = nm
+        protect = {nm, "new_" + nm}
     if focus and focus[0] == "rebuild_then_drop":
         # `migrate diff` plans tables in name order: a rebuild of `audit` (no indexes) directly followed by DROP TABLE `zones`
         for nm in ("audit", "zones"):
@@ -851,13 +892,44 @@ def gen_evolution(rng, nsteps=6, focus=None):
         apply_op(schema, op)
     # ---- S1..Sn ----
     for stepno in range(1, nsteps + 1):
-        writer = rng.choice(["atlas", "hand"])
+        writer = "hand" if all_hand else rng.choice(["atlas", "hand"])
         kinds = ATLAS_KINDS if writer == "atlas" else HAND_KINDS
         if stepno == fpos and focus[0] == "rebuild_then_drop":
             t = schema.tables["audit"]
             fops = [{"op": "drop_cols", "t": "audit", "cols": [rng.choice([c.name for c in t.cols if c.name != "id"])], "vonly": False},
                     {"op": "drop_table", "t": "zones"}]
             steps.append({"writer": "atlas", "ops": fops, "kind": focus[0], "focus": True})
+            for o in fops:
+                apply_op(schema, o)
+            protect = set()
+            continue
+        if stepno == fpos and focus[0] in ("crlf", "drop_virtual_table"):
+            fops = []
+            if focus[0] == "drop_virtual_table":
+                if rng.random() < 0.5:
+                    a = make_op(rng, schema, rng.choice(["add_column", "add_index", "add_table"]), "hand", protect=protect)
+                    if a is not None:
+                        fops.append(a)
+                fops.append({"op": "drop_table", "t": target})
+                step = {"writer": "hand", "ops": fops, "kind": focus[0], "focus": True, "cls": "drop_virtual_table"}
+            elif focus[1] == "hand":
+                # Windows line endings, the destructive statement is not on the first line
+                cur = schema.clone()
+                a = make_op(rng, cur, rng.choice(["add_column", "add_index", "add_table"]), "hand") or make_op(rng, cur, "add_table", "hand")
+                apply_op(cur, a)
+                used = {a["t"]} if "t" in a else {a["table"].name}
+                d = simple_destructive(rng, cur, (), used | {"new_" + u for u in used})
+                fops = [a] + ([d] if d is not None else [])
+                step = {"writer": "hand", "ops": fops, "kind": focus[0], "focus": True, "cls": "crlf", "eol": rng.choice(["crlf", "crlf", "mixed"])}
+            else:
+                d = None
+                for _try in range(10):
+                    d = make_op(rng, schema, rng.choice(["drop_table", "drop_col"]), "atlas")
+                    if d is not None:
+                        break
+                fops = [d] if d is not None else [make_op(rng, schema, "add_table", "atlas")]
+                step = {"writer": "atlas", "ops": fops, "kind": focus[0], "focus": True, "cls": "crlf", "eol": "crlf"}
+            steps.append(step)
             for o in fops:
                 apply_op(schema, o)
             protect = set()
@@ -936,7 +1008,10 @@ def gen_evolution(rng, nsteps=6, focus=None):
         else:
             ops = [make_op(rng, schema, "add_table", writer)]
             kind = "add_table"
-        steps.append({"writer": writer, "ops": ops, "kind": kind})
+        step = {"writer": writer, "ops": ops, "kind": kind}
+        if writer == "hand" and rng.random() < 0.08 and not any(o.get("nolint") is not None or o.get("file_nolint") is not None for o in ops):
+            step["eol"] = rng.choice(["crlf", "mixed"])
+        steps.append(step)
         for op in ops:
             apply_op(schema, op)
     return steps
@@ -986,6 +1061,8 @@ def file_class(ops):
     if len(ops) > 1:
         return "mixed_big" if len(ops) >= 6 else "mixed"
     o = ops[0]
+    if o["op"] == "replace_inplace":
+        return "replace_inplace:" + ("more-columns" if o.get("col") is not None else "same-columns")
     if o["op"] == "rebuild_neighbor":
         return "rebuild_neighbor:%s:%s" % (o["slot"], o["nb"]["op"])
     if o["op"] == "rename_drop":
@@ -1085,8 +1162,10 @@ def analyze_file(stmts):
     drop_table[t]  -> [(region, end)] of every DROP TABLE t
     drop_col[t]    -> [(region, end)] of every ALTER TABLE t DROP COLUMN, plus every rebuild group of t
                       (from the CREATE TABLE of the temporary name through the RENAME TO t)
-    Also returns the list of rebuild groups [(t, tmp, i_create, i_drop, i_rename, canonical)] where canonical
-    means exactly CREATE new_t, INSERT, DROP t, RENAME on consecutive statements."""
+    Also returns the list of rebuild groups [(t, tmp, i_create, i_drop, i_rename, canonical, copied)] where canonical
+    means exactly CREATE new_t, INSERT, DROP t, RENAME on consecutive statements and copied that some statement
+    between the CREATE and the DROP is an INSERT INTO tmp .. SELECT .. FROM t (without it the sequence is a
+    drop-and-replace: the rows of t are gone, it is not the same table any more)."""
     drop_table, drop_col, groups = {}, {}, []
     for i, s in enumerate(stmts):
         if s.kind == "drop_table":
@@ -1099,8 +1178,10 @@ def analyze_file(stmts):
             idr = [j for j in range(i) if stmts[j].kind == "drop_table" and stmts[j].args[0] == t]
             if ic and idr and ic[-1] < idr[-1]:
                 c, d = ic[-1], idr[-1]
-                canonical = tmp == "new_" + t and d == c + 2 and i == c + 3 and stmts[c + 1].kind == "insert"
-                groups.append((t, tmp, c, d, i, canonical))
+                copied = any(stmts[j].kind == "insert" and stmts[j].args[0] == tmp
+                             and re.search(r"\bFROM\s+[`\"\[]?%s\b" % re.escape(t), stmts[j].text, re.I) for j in range(c + 1, d))
+                canonical = tmp == "new_" + t and d == c + 2 and i == c + 3 and copied
+                groups.append((t, tmp, c, d, i, canonical, copied))
                 drop_col.setdefault(t, []).append((stmts[c].region, s.end))
     return drop_table, drop_col, groups
 
@@ -1109,9 +1190,17 @@ def analyze_file(stmts):
 # independent facts
 # --------------------------------------------------------------------------------------------
 
+def read_shadows(con):
+    """Names of the shadow tables (created and owned by the module of a virtual table)."""
+    return {r[1] for r in con.execute("PRAGMA table_list").fetchall() if r[0] == "main" and r[2] == "shadow"}
+
+
 def read_facts(con):
     out = {}
+    shadows = read_shadows(con)
     for (name,) in con.execute("SELECT name FROM sqlite_master WHERE type = 'table' AND name NOT LIKE 'sqlite_%'").fetchall():
+        if name in shadows:
+            continue
         cols = {}
         for r in con.execute('PRAGMA table_xinfo("%s")' % name.replace('"', '""')).fetchall():
             hidden = r[6]
@@ -1139,10 +1228,11 @@ def track_file(con, text):
     stmts = split_sql(text)
     _, _, groups = analyze_file(stmts)
     before = read_facts(con)
+    shadows_before = read_shadows(con)
     alive = {t: {"origin": t, "names": [t], "chain": [],
                  "cols": {c for c, h in cols.items() if h != "v"}, "vcols": {c for c, h in cols.items() if h == "v"}}
              for t, cols in before.items()}
-    drop_at = {g[3]: g for g in groups}
+    drop_at = {g[3]: g for g in groups if g[6]}
     suspended = {}
     tabs, cols, virt = [], [], []
     now = before
@@ -1177,7 +1267,8 @@ def track_file(con, text):
                 virt.append((t, c))
             o["cols"] &= set(now[t])
             o["vcols"] &= set(now[t])
-    return {"before": before, "after": now, "tables": tabs, "columns": cols, "virtual": virt, "stmts": stmts, "groups": groups}
+    return {"before": before, "after": now, "tables": tabs, "columns": cols, "virtual": virt, "stmts": stmts, "groups": groups,
+            "optional": sorted(shadows_before - read_shadows(con))}
 
 
 def replay_files(texts):
